@@ -212,10 +212,10 @@ def judge_case(dbx, dec, d, label, payload, nb, acc, texts=None):
     # expected strings for generator-made text
     for e in exp:
         if e["kind"] == "strfix":
-            try:
-                e["expected_text"] = gen.expected_string_fix(e["bytes"])
-            except UnicodeDecodeError:
-                e["expected_text"] = None
+            # text is judged only on generator-made content (anything else has no unambiguous expected text)
+            e["expected_text"] = gen.expected_string_fix(e["bytes"]) if gen.is_generator_string(e["bytes"]) else None
+            if e["expected_text"] is not None:
+                acc.count("fixed_strings_judged")
         if e["kind"] == "str" and texts is not None and e["field"].order in texts and not e.get("undecodable"):
             e["judge_text"] = True
     in_range = True
